@@ -62,6 +62,11 @@ pub struct JudgeOpts {
 
 /// Decode `bytes` under every key type of the build and run all input-level monitors.
 pub fn judge_input(ctx: &mut Ctx, class: &str, bytes: &[u8], opts: JudgeOpts) -> Judged {
+    if cfg!(miri) && ctx.expired() {
+        // the interpreter is ~10^4 x slower: stop at the deadline even inside a base record's mutants
+        ctx.count("deadline-skips");
+        return Judged { outs: Vec::new() };
+    }
     ctx.trace_case(|| json!({"kind": "input", "class": class, "hex": hex(bytes)}));
     let kts = dec::kts();
     let mut outs: Vec<(KT, RefOut, DecOut)> = Vec::with_capacity(kts.len());
